@@ -130,6 +130,92 @@ func runC16(c *Ctx) {
 				why = fmt.Sprintf("Manager.lock is not held continuously from the scan to the store (held at scan=%v, at store=%v, unlock between=%v)", heldScan, heldStore, unlocked)
 			}
 		}
+		// the scan may be a lookup helper: a function that ranges over Manager.allocations,
+		// looks its key parameter up in each allocation's tcpConnections, returns the entry on
+		// a hit and nil after the complete loop. The store must then be on the edge where the
+		// helper (called with the new id, before the store, in the same hold of the lock)
+		// returned nil.
+		if !okScan {
+			w.eachInstr(add, func(in ssa.Instruction) {
+				hc, ok := in.(*ssa.Call)
+				if !ok || okScan {
+					return
+				}
+				h := hc.Call.StaticCallee()
+				if h == nil || !w.IsMod[h] || len(h.Blocks) == 0 || !instrDominates(hc, store) {
+					return
+				}
+				for _, lp := range w.rangeLoops(h, func(coll ssa.Value) bool { _, f, ok := fieldLoad(coll); return ok && f == allocs }) {
+					var lk *ssa.Lookup
+					for _, in2 := range lp.body.Instrs {
+						if l, ok := in2.(*ssa.Lookup); ok {
+							if b, f, isL := fieldLoad(l.X); isL && f == tc && lp.isElem(b) {
+								if p := rawParamOf(l.Index, h); p != nil && paramIndex(p) < len(hc.Call.Args) && w.sameKey(hc.Call.Args[paramIndex(p)], store.Key) {
+									lk = l
+								}
+							}
+						}
+					}
+					if lk == nil {
+						continue
+					}
+					// which result carries the entry? one whose every non-nil leaf is the looked-up value
+					for j := 0; j < h.Signature.Results().Len(); j++ {
+						entry := true
+						nNil, nHit := 0, 0
+						for _, r := range returnsOf(h) {
+							for _, lf := range w.guardedLeaves(r.Results[j], r) {
+								v := stripIface(w.resolveLoad(lf.val))
+								if isNilConst(v) {
+									nNil++
+									// the nil return is only reached after the loop has run to its end
+									if !(lp.header.Succs[1] == r.Block() || lp.header.Succs[1].Dominates(r.Block())) {
+										entry = false
+									}
+									continue
+								}
+								if ex, isEx := v.(*ssa.Extract); isEx && ex.Tuple == ssa.Value(lk) && ex.Index == 0 {
+									nHit++
+									continue
+								}
+								entry = false
+							}
+						}
+						if !entry || nNil == 0 || nHit == 0 {
+							continue
+						}
+						// the store is on the helper-returned-nil edge
+						onNil := false
+						for _, f := range w.factsAt(store) {
+							if v, isNil, ok := nilFact(f); ok && isNil {
+								if fc, fi := callOf(w.resolveLoad(v)); fc == hc && (fi == j || (fi < 0 && j == 0)) {
+									onNil = true
+								}
+							}
+						}
+						if !onNil {
+							why = "the store is not confined to the edge where the lookup of the new id found nothing"
+							continue
+						}
+						heldScan := holds(li.mustAt(hc), "allocation.Manager.lock", true)
+						heldStore := holds(li.mustAt(store), "allocation.Manager.lock", true)
+						unlocked := false
+						w.eachInstr(add, func(in3 ssa.Instruction) {
+							if call, ok := in3.(*ssa.Call); ok {
+								if lo := w.lockOpOf(&call.Call); lo != nil && lo.class == "allocation.Manager.lock" && (lo.op == "Unlock") && instrReaches(hc, in3) && instrReaches(in3, store) {
+									unlocked = true
+								}
+							}
+						})
+						if heldScan && heldStore && !unlocked {
+							okScan = true
+						} else {
+							why = fmt.Sprintf("Manager.lock is not held continuously from the scan to the store (held at scan=%v, at store=%v, unlock between=%v)", heldScan, heldStore, unlocked)
+						}
+					}
+				}
+			})
+		}
 		if okScan {
 			c.OK("C16.3", fname(add), "scan then store", w.instrPos(store), "store dominated by a completed scan of all allocations for the id, under one hold of Manager.lock")
 		} else {
@@ -554,7 +640,7 @@ func ruleSingleUseOwner(c *Ctx, rule string) {
 		}
 		c.Anchor(rule, "swap order")
 		nSwap := 0
-		w.eachInstr(fn, func(in ssa.Instruction) {
+		w.eachInstrDeep(fn, func(in ssa.Instruction) {
 			call, ok := in.(*ssa.Call)
 			if !ok || call.Call.StaticCallee() == nil || call.Call.StaticCallee().String() != "(*sync/atomic.Bool).Swap" {
 				return
